@@ -10,6 +10,7 @@ import warnings
 import numpy as np
 
 from .. import env, gen, oracles as O
+from ..ops import OpGen, execute
 from . import common
 
 PROP = "C15"
@@ -21,11 +22,14 @@ RULE = (
     "ALL non-empty subsets (exhaustive, up to 255 per forest); export_to_csv (with "
     "export_seg) and export_to_geff with node_ids are run on sampled subsets of these forests "
     "and of larger ones (with/without segmentation), the written files are read back and "
+    "(node ids that include 0; movies longer than one 64-frame storage chunk) and "
     "compared with an own parent-pointer closure: exported ids = closure, exported edges = "
     "edges induced by the closure, no row with a missing parent, GEFF segmentation = "
     "where(isin(seg, closure), seg, 0), CSV tif non-zero exactly on the pixels of closure nodes "
     "with their track id. Non-trivial = closure strictly larger than the selection or "
-    "selection spanning several lineages; distinct = (format, seg?, |selection|, |closure|, "
+    "selection spanning several lineages. Between export rounds the same tracks object is "
+    "edited by accepted user actions and exported again; CSV exports also run with a colour "
+    "table. distinct = (format, seg?, |selection|, |closure|, "
     "lineages touched)"
 )
 ASSUMPTIONS = ["the subset is given as node ids of the graph"]
@@ -64,7 +68,7 @@ def contracted():
     return f
 
 
-def export_checks(tracks, forest, sel, wd, fmt, uniq):
+def export_checks(tracks, forest, sel, wd, fmt, uniq, variant="plain"):
     """Run one export with node_ids=sel and compare the files with the closure."""
     import pandas as pd
 
@@ -82,6 +86,9 @@ def export_checks(tracks, forest, sel, wd, fmt, uniq):
             kw = {}
             if seg is not None:
                 kw = {"export_seg": True, "seg_path": wd / f"s{uniq}.tif"}
+            if variant == "colors":
+                kw["color_dict"] = {int(n): np.array([0.1, 0.5, 0.9, 1.0])
+                                    for n in tracks.graph.nodes}
             export_to_csv(tracks, out, node_ids=set(sel), **kw)
             df = pd.read_csv(out)
             ids = [int(x) for x in df["id"]]
@@ -136,6 +143,35 @@ def export_checks(tracks, forest, sel, wd, fmt, uniq):
     return probs, closure
 
 
+def _account(acc, cfg, tracks, sel, closure, comp_of, fmt, variant, probs, ops):
+    acc["evaluations"] += 1
+    acc["counters"][f"exports-{fmt}"] = acc["counters"].get(f"exports-{fmt}", 0) + 1
+    if variant != "plain":
+        acc["counters"][f"exports-csv-{variant}"] = \
+            acc["counters"].get(f"exports-csv-{variant}", 0) + 1
+    if cfg.seg:
+        acc["counters"]["exports-with-seg"] = acc["counters"].get("exports-with-seg", 0) + 1
+    if ops:
+        acc["counters"]["exports-after-edits"] = acc["counters"].get("exports-after-edits", 0) + 1
+    if cfg.big and fmt == "geff" and any(tracks.get_time(n) >= 64 for n in closure):
+        acc["counters"]["geff-seg-exports-beyond-first-chunk"] = \
+            acc["counters"].get("geff-seg-exports-beyond-first-chunk", 0) + 1
+    nl = len({comp_of[n] for n in sel if n in comp_of})
+    if len(closure) > len(sel) or nl > 1:
+        acc["keys"].add(f"{fmt}/{variant}/{'seg' if cfg.seg else 'noseg'}/sel={len(sel)}/"
+                        f"closure={len(closure)}/lineages={nl}/big={cfg.big}/"
+                        f"edited={bool(ops)}")
+    for clause, what, key in probs[:1]:
+        acc["violations"].append({
+            "clause": clause, "what": what, "key": key + ("/after-edits" if ops else ""),
+            "replay": {"config": cfg.to_json(), "sel": sorted(sel), "fmt": fmt,
+                       "variant": variant, "ops": ops}})
+    if not acc["samples"] and len(closure) > len(sel):
+        acc["samples"].append({"edges": sorted(tracks.graph.edges), "selection": sorted(sel),
+                               "closure": sorted(closure), "format": fmt,
+                               "edits_before": len(ops)})
+
+
 def forest_parent(tracks):
     return {int(v): int(u) for u, v in tracks.graph.edges}
 
@@ -143,7 +179,7 @@ def forest_parent(tracks):
 def plan(tier, seed):
     n = 96 if tier == "quick" else 1600
     return [{"kind": "cases", "n": n // 16, "seed": common.seed_for(PROP, tier, seed, i),
-             "exports": 10 if tier == "quick" else 16} for i in range(16)]
+             "exports": 12 if tier == "quick" else 18} for i in range(16)]
 
 
 def run_shard(spec):
@@ -155,16 +191,24 @@ def run_shard(spec):
     try:
         for i in range(spec["n"]):
             small = rng.random() < 0.7
-            cfg = gen.random_config(rng, p3d=0.15, extras=False)
+            if rng.random() < 0.15:
+                # movie longer than one storage chunk of the exported label array
+                cfg = gen.big_config(rng, seg=True)
+                acc["counters"]["big-movies"] = acc["counters"].get("big-movies", 0) + 1
+            else:
+                cfg = gen.random_config(rng, p3d=0.15, extras=False)
+                cfg.T = rng.randint(2, 6)
+                cfg.max_per_frame = rng.choice([1, 2, 2, 3])
+                cfg.skip_prob = rng.choice([0, 0.2, 0.5])
             cfg.custom = False
-            cfg.T = rng.randint(2, 6)
-            cfg.max_per_frame = rng.choice([1, 2, 2, 3])
-            cfg.skip_prob = rng.choice([0, 0.2, 0.5])
             tracks, forest, _ = gen.build_tracks(cfg)
             nodes = sorted(int(n) for n in tracks.graph.nodes)
             if not nodes:
                 continue
             acc["counters"]["forests"] = acc["counters"].get("forests", 0) + 1
+            if 0 in nodes and tracks.graph.out_degree(0) > 0:
+                acc["counters"]["forests-where-node-0-is-a-parent"] = \
+                    acc["counters"].get("forests-where-node-0-is-a-parent", 0) + 1
             parent = forest_parent(tracks)
             comps = O.component_partition(nodes, tracks.graph.edges)
             comp_of = {n: i for i, c in enumerate(comps) for n in c}
@@ -188,31 +232,58 @@ def run_shard(spec):
                     break
             acc["counters"]["subsets-filter"] = acc["counters"].get("subsets-filter", 0) + \
                 len(subsets)
-            # exports on sampled subsets
-            for j in range(spec["exports"]):
-                sel = rng.choice(subsets)
-                fmt = rng.choice(["csv", "geff"])
-                try:
-                    probs, closure = export_checks(tracks, forest, sel, wd, fmt, f"{i}-{j}")
-                except PostBroken as e:
-                    probs, closure = [("closure", f"{e.args[0]}", "C15/filter/closure")], set()
-                acc["evaluations"] += 1
-                acc["counters"][f"exports-{fmt}"] = acc["counters"].get(f"exports-{fmt}", 0) + 1
-                if cfg.seg:
-                    acc["counters"]["exports-with-seg"] = \
-                        acc["counters"].get("exports-with-seg", 0) + 1
-                nl = len({comp_of[n] for n in sel})
-                if len(closure) > len(sel) or nl > 1:
-                    acc["keys"].add(f"{fmt}/{'seg' if cfg.seg else 'noseg'}/sel={len(sel)}/"
-                                    f"closure={len(closure)}/lineages={nl}")
-                for clause, what, key in probs[:1]:
-                    acc["violations"].append({
-                        "clause": clause, "what": what, "key": key,
-                        "replay": {"config": cfg.to_json(), "sel": sorted(sel), "fmt": fmt}})
-                if not acc["samples"] and len(closure) > len(sel):
-                    acc["samples"].append({"edges": sorted(tracks.graph.edges),
-                                           "selection": sorted(sel),
-                                           "closure": sorted(closure), "format": fmt})
+            # exports on sampled subsets; between export rounds the SAME tracks object is
+            # edited (a few accepted user actions), so that anything an exporter remembers
+            # about the graph from an earlier call is put to the test
+            ops_done: list = []
+            nrounds = 1 if cfg.big else 3
+            per_round = max(2, spec["exports"] // nrounds)
+            jobs = []
+            for rnd in range(nrounds):
+                if rnd:
+                    ogen = OpGen(cfg, rng, weights={"paint": 1.5, "update_attrs": 0.2},
+                                 refusal_rate=0.0)
+                    with warnings.catch_warnings():
+                        warnings.simplefilter("ignore")
+                        for _ in range(rng.randint(1, 5)):
+                            op = ogen.next(tracks)
+                            execute(tracks, op)
+                            ops_done.append(op)
+                    acc["counters"]["export-rounds-after-edits"] = \
+                        acc["counters"].get("export-rounds-after-edits", 0) + 1
+                    nodes = sorted(int(n) for n in tracks.graph.nodes)
+                    if not nodes:
+                        break
+                    comps = O.component_partition(nodes, tracks.graph.edges)
+                    comp_of = {n: k for k, c in enumerate(comps) for n in c}
+                    subsets = [set(rng.sample(nodes, rng.randint(1, len(nodes))))
+                               for _ in range(30)]
+                    for sel in subsets[:10]:
+                        acc["evaluations"] += 1
+                        try:
+                            f(tracks.graph, set(sel))
+                        except PostBroken as e:
+                            acc["violations"].append({
+                                "clause": "closure",
+                                "what": f"after edits: filter_graph_with_ancestors{e.args[0]} on "
+                                f"edges {sorted(tracks.graph.edges)}",
+                                "key": "C15/filter/closure/after-edits",
+                                "replay": {"config": cfg.to_json(), "sel": sorted(sel),
+                                           "fmt": "filter", "ops": list(ops_done)}})
+                            break
+                for j in range(per_round):
+                    jobs.append((rnd, j))
+                    sel = rng.choice(subsets)
+                    fmt = rng.choice(["csv", "geff"])
+                    variant = "colors" if fmt == "csv" and rng.random() < 0.35 else "plain"
+                    try:
+                        probs, closure = export_checks(tracks, forest, sel, wd, fmt,
+                                                       f"{i}-{rnd}-{j}", variant)
+                    except PostBroken as e:
+                        probs, closure = [("closure", f"{e.args[0]}",
+                                           "C15/filter/closure")], set()
+                    _account(acc, cfg, tracks, sel, closure, comp_of, fmt, variant, probs,
+                             list(ops_done))
             shutil.rmtree(wd, ignore_errors=True)
             wd.mkdir(parents=True, exist_ok=True)
             if len(acc["violations"]) > 10:
@@ -227,7 +298,9 @@ def run_shard(spec):
 
 def floors(tier):
     return {"forests": 60, "forests-exhaustive": 30, "subsets-filter": 3000, "exports-csv": 150,
-            "exports-geff": 150, "exports-with-seg": 100, "postcondition-evaluations": 3000}
+            "exports-geff": 150, "exports-with-seg": 100, "postcondition-evaluations": 3000,
+            "forests-where-node-0-is-a-parent": 3, "geff-seg-exports-beyond-first-chunk": 10,
+            "exports-after-edits": 150, "exports-csv-colors": 40}
 
 
 def replay(doc):
@@ -235,6 +308,22 @@ def replay(doc):
     tracks, forest, _ = gen.build_tracks(cfg)
     f = contracted()
     sel = set(doc["sel"])
+    if doc.get("ops"):
+        # a remembered-state defect needs an export before the edits as well
+        wd0 = env.workdir("c15r0")
+        try:
+            with warnings.catch_warnings():
+                warnings.simplefilter("ignore")
+                try:
+                    f(tracks.graph, set(tracks.graph.nodes))
+                    for n in list(tracks.graph.nodes):
+                        f(tracks.graph, {n})
+                except PostBroken:
+                    pass
+                for op in doc["ops"]:
+                    execute(tracks, op)
+        finally:
+            shutil.rmtree(wd0, ignore_errors=True)
     if doc["fmt"] == "filter":
         try:
             f(tracks.graph, sel)
@@ -243,7 +332,8 @@ def replay(doc):
         return []
     wd = env.workdir("c15r")
     try:
-        probs, _ = export_checks(tracks, forest, sel, wd, doc["fmt"], "r")
+        probs, _ = export_checks(tracks, forest, sel, wd, doc["fmt"], "r",
+                                 doc.get("variant", "plain"))
     finally:
         shutil.rmtree(wd, ignore_errors=True)
     return [{"clause": c, "what": w, "key": k} for c, w, k in probs]
